@@ -81,9 +81,12 @@ def gen(rng):
     twins = [0]
     dates = [TG.rand_date(rng) for _ in range(4)]
     for i in range(n):
-        tdir, top, _u = rng.choice(locs)
+        tdir, top, _u = rng.choice(locs) if rng.random() >= 0.12 else ('/.Trash-%d' % L['uid'], '/', True)
         if top is None:
             d = rng.choice(bases[None])
+        elif top == '/':
+            # the top-directory trash of the volume mounted at / (which, with home on /, is also the home trash's volume)
+            d = rng.choice(['/srv', '/srv/a', '/opt', home + '/a'])
         else:
             d = rng.choice([top + '/a', top + '/a/foo', top + '/ab', top])
         loc = d + '/' + rng.choice(cand)
@@ -93,7 +96,7 @@ def gen(rng):
             # nested original locations (a file trashed from inside a directory, then the directory) are kept in 40 % of the draws
             continue
         used.add(loc)
-        pv = TG.pct(loc if top is None else loc[len(top) + 1:])
+        pv = TG.pct(loc if top is None else (loc[1:] if top == '/' else loc[len(top) + 1:]))
         date = rng.choice(dates) if rng.random() < 0.4 else TG.rand_date(rng)
         G.add_trashed(steps, tdir, 't%d' % i, pv, TG.iso(date), rng.choice(['file', 'dir', 'link']), tag=str(i))
         if rng.random() < 0.08:
